@@ -182,7 +182,12 @@ func H_C20_Reopen() {
 			nfail++
 		}
 	}
-	err := s.b.Reopen(context.Background())
+	// the statement makes no exception for a context that is done: every node is reopened all the same
+	var rctx context.Context = context.Background()
+	if nondetBool() {
+		rctx = verifCancelledCtx(false)
+	}
+	err := s.b.Reopen(rctx)
 	if nfail == 0 {
 		verifAssert(err == nil, "C20.reopen.nil-when-no-failure")
 		for _, n := range all {
